@@ -17,6 +17,8 @@ Next == /\ Len(hist) < DepthOf(sh0)
            \/ AShrinkCtrlpts(1)
            \/ \E c \in {R(1,2), RI(3)} : AScaleWeights(c)
            \/ \E v \in Views : ARead(v)
+           \/ \E i \in {2}, k \in 1..2 : AEditCtrlptsW(i, k)
+           \/ \E keep \in {"orig", "copy"} : AFork(RI(3), keep)
 Spec == Init /\ [][Next]_vars
 
 \* the three views are always related by multiplication with the weight
@@ -34,7 +36,8 @@ P_Steps == [][
   /\ st.a = "set_ctrlpts" => ViewWeights(obj') = ViewWeights(obj) /\ ViewCtrlpts(obj') = st.P
   /\ st.a = "set_ctrlptsw" => ViewCtrlptsW(obj') = st.Pw
   /\ st.a = "shrink_ctrlpts" => ViewCtrlpts(obj') = st.P /\ Len(ViewWeights(obj')) = Len(st.P)
-  /\ st.a = "read" => obj' = obj]_vars
+  /\ st.a = "edit_ctrlptsw" => ViewCtrlptsW(obj') = [ViewCtrlptsW(obj) EXCEPT ![st.i] = st.pt]
+  /\ st.a \in {"read", "fork"} => obj' = obj]_vars
 \* views of the final state, emitted with every history
 EmitViews == hist # <<>> =>
   PrintT("CASE " \o ToJson([sh0 |-> sh0, hist |-> hist, obj |-> obj,
